@@ -17,18 +17,18 @@ mv tests/seed_demo.rs /tmp/seed_demo_$ID.rs 2>/dev/null
 S=$(cargo test --offline ${FEAT:-} --no-fail-fast 2>&1 | grep -E "^test result" | awk '{p+=$4; f+=$6} END {print p" passed "f" failed"}')
 cp /tmp/seed_demo_$ID.rs tests/seed_demo.rs
 # 2. demo with the change
-D1=$(cargo test --offline ${FEAT:-} --test seed_demo 2>&1 | grep -E "^test result" | head -1)
-# 3. demo without
-git stash -q -- src
+D1=$(cargo test --offline ${FEAT:-} --test seed_demo 2>&1 | grep -E "^test result|signal: [0-9]+, SIG" | head -1)
+# 3. demo without (no git stash: the stash is shared between worktrees)
+git checkout -q -- src
 D0=$(cargo test --offline ${FEAT:-} --test seed_demo 2>&1 | grep -E "^test result" | head -1)
-git stash pop -q
+git apply $OUT/patch.diff
 python3 - "$OUT" "$ID" "$PROP" "$S" "$D1" "$D0" <<'PY'
 import json,sys,os
 out,id_,prop,s,d1,d0=sys.argv[1:]
 meta={"id":id_,"breaks_property":prop,"source":"sub-agent given only the property text and a scratch worktree",
  "needs_to_manifest": open(os.path.join(out,"seed_meta.txt")).read() if os.path.exists(os.path.join(out,"seed_meta.txt")) else "",
  "confirmed_by_me": {"existing_suite_with_change": s, "demo_with_change": d1, "demo_without_change": d0},
- "ok": ("0 failed" in s) and ("FAILED" in d1 or "failed" in d1 and "0 failed" not in d1) and ("0 failed" in d0)}
+ "ok": ("0 failed" in s) and ("FAILED" in d1 or "signal:" in d1 or "failed" in d1 and "0 failed" not in d1) and ("0 failed" in d0)}
 json.dump(meta,open(os.path.join(out,"meta.json"),"w"),indent=1)
 print(id_, meta["ok"], "|", s, "|", d1, "|", d0)
 PY
